@@ -105,7 +105,9 @@ var (
 		{{"dev1", "0.333333333333333333"}, {"dev2", "0.333333333333333333"}, {"dev3", "0.333333333333333334"}},
 		{{"", "1"}},
 	}
-	latRec = [][]int64{nil, {1}, {1, 2}}
+	// a negative weight is the community-pool record (gauge id 0) with that weight: in {-1, 1e9} its share of the
+	// pool-incentives balance truncates to zero for all but the largest provisions
+	latRec = [][]int64{nil, {1}, {1, 2}, {-1, 1000000000}}
 )
 
 var dimSize = [nDims]int{dPer: len(latPer), dStart: len(latStart), dFac: len(latFac), dRec: len(latRec),
@@ -123,7 +125,7 @@ func (p Point) Config() Config {
 // point is simplified towards the front of these lists. (Identity except for the reduction factor,
 // where 1 = "provision never changes" is the simplest.)
 var simpler = [nDims][]int{
-	dPer: {0, 1, 2}, dStart: {0, 1, 2}, dFac: {2, 0, 1, 3}, dRec: {0, 1, 2}, dProv: {0, 1, 2, 3, 4}, dProp: {0, 1, 2, 3, 4, 5}, dRecv: {0, 1, 2, 3},
+	dPer: {0, 1, 2}, dStart: {0, 1, 2}, dFac: {2, 0, 1, 3}, dRec: {0, 1, 2, 3}, dProv: {0, 1, 2, 3, 4}, dProp: {0, 1, 2, 3, 4, 5}, dRecv: {0, 1, 2, 3},
 }
 
 // enumeration order, outermost first: the two dimensions that decide the cost of a point (receivers:
